@@ -173,18 +173,24 @@ structure FilesSpec where
   recs : List SRec
   failed : Option Bytes
   units : UnitMap
+  /-- number of result records of every input that was opened, in order -/
+  results : List Nat
   deriving Repr
+
+def SRec.isResult : SRec → Bool
+  | .result _ => true
+  | _ => false
 
 /-- File after file: each is read on its own, under its own label, starting from an empty
 configuration; only unit metadata is handed on. A file that cannot be opened ends the run. -/
 def readFiles (O : Oracles) (fs : FS) : UnitMap → Bytes → List (Bytes × Bytes × Bool) → FilesSpec
-  | units, _, [] => ⟨[], none, units⟩
+  | units, _, [] => ⟨[], none, units, []⟩
   | units, stdin, (label, path, isStdin) :: rest =>
     match (if isStdin then some stdin else fs.open path) with
-    | none => ⟨[], some path, units⟩
+    | none => ⟨[], some path, units, []⟩
     | some text =>
       let (q, units') := read O path (CMap.assign [] dotFile label false) units text
       let out := readFiles O fs units' (if isStdin then [] else stdin) rest
-      { out with recs := q ++ out.recs }
+      { out with recs := q ++ out.recs, results := (q.filter SRec.isResult).length :: out.results }
 
 end Spec.Format
